@@ -163,9 +163,24 @@ fn random_list(rng: &mut Rng, number: u16) -> (Vec<Entry>, &'static str) {
         }
     }
     // scatter: entries of one satellite spread through the list
-    match rng.below(3) {
+    match rng.below(6) {
         0 => rng.shuffle(&mut entries),
         1 => entries.reverse(),
+        2 if entries.len() > 1 => {
+            // grouped order with one adjacent transposition
+            entries.sort_by_key(|e| e.0);
+            let a = rng.usize_below(entries.len() - 1);
+            entries.swap(a, a + 1);
+        }
+        3 if entries.len() > 2 => {
+            // grouped order with one entry moved elsewhere
+            entries.sort_by_key(|e| e.0);
+            let a = rng.usize_below(entries.len());
+            let e = entries.remove(a);
+            let b = rng.usize_below(entries.len() + 1);
+            entries.insert(b, e);
+        }
+        4 => entries.sort_by_key(|e| (e.1, e.2 as u32, e.0)),
         _ => {}
     }
     entries.truncate(390);
